@@ -37,5 +37,6 @@ Record tstate := mkT {
   cleanups : list (nat * prog); (* T.cleanups, last registered first *)
   ctx : bool;                   (* T.ctx != nil: a live context was created and not yet cancelled *)
   cleaning : bool;              (* T.cleaning *)
+  skipreq : option msg;         (* root T.skipped: a cleanup function (of this T or of an inner T) asked to skip the test case *)
 }.
-Definition fresh_t : tstate := mkT None [] false false.
+Definition fresh_t : tstate := mkT None [] false false None.
